@@ -149,6 +149,29 @@ PROPS["C08"] = {
     ],
 }
 
+PROPS["C09"] = {
+    "engine": "rwsim",
+    "level": "exploration",
+    "quick_runs": 3000,
+    "thorough_runs": 60000,
+    "quick_wall": 240,
+    "thorough_wall": 2400,
+    "params": {"insfn_p": 0.0, "align_p": 0.0, "multi_unit": 0.1},
+    "rule": "seeded scenarios; the last session is executed twice from a fresh build: all modifications in one apply(), and one "
+    "modification per apply() in the engine's order (positions re-derived through token identities); the UUID-free canonical "
+    "dumps (temporary-label suffixes normalised) must be equal and an abort in one but not the other is a violation; in "
+    "addition, after every engine insert/delete step the rewrite caches are compared with the IR (block ordering, function of a "
+    "block, return-edge index, referents) and at every assemble step the referents the assembler read must be live; distinct = "
+    "(module, sessions) digest; non-trivial = the compared session has at least two modifications",
+    "interleaving_measure": "distinct per-run sequences of engine step kinds (invoke/insert/delete/split/join/remove)",
+    "real_vs_stub": RW_REAL,
+    "assumptions": [
+        "compared sessions hold modifications at pairwise distinct (block, offset) places only",
+        "modules without alignment requirements: alignment padding inserted by an intermediate apply() becomes part of the program for the next one, so batch and one-at-a-time legitimately differ in padding",
+        "cache internals are read without calling any mutating accessor (read-only walk of the RefNode forest and of the BlockOrdering chains)",
+    ],
+}
+
 # (moved below)
 # engines built separately contribute their own entries
 import importlib as _il
